@@ -307,6 +307,7 @@ pub fn run(env: &Env) -> i32 {
         set_var: 7,
         eval: 0,
         observe: 16,
+        binds: 0,
         max_ops: 30,
     };
     let n = env.cases(10000, 300000);
